@@ -39,7 +39,7 @@ CHECKS["C13"] = dict(
  design_ref="DESIGN.md 4.2, 5/C13")
 CHECKS["C11"] = dict(
  text="Chunks.tla models how Carpet splits a grid function (nested rectilinear decompositions, ghost width, chunk numbering orders) and TLC checks that the generator is a partition and enumerates the decompositions (tensor-product and per-slab cuts exhaustively, fully nested by simulation); ETSim.tla models restart sequences with overlapping iteration ranges, layouts and levels, with the reference semantics of a read (latest restart wins, sorted unique iterations, matching times). Every state is materialised as a CarpetIOHDF5-shaped directory whose values encode (variable, restart, iteration, level, x, y, z); the real join_chunks/fixij and read_data (4 layouts) are compared bit-for-bit with the spec's Truth.",
- note="Grids 3x4x3 (quick) and 4x4x4 (thorough), ghost 1..3, <= 3-4 restarts. Same output stride in all restarts. A one-file-per-process layout with a single chunk is not generated (Carpet does not write it). Extra columns returned for the rest of a file group are accepted. Trusted: the generator (validated by the spec-level partition invariant and by the reader itself on all layouts), h5py.",
+ note="Grids 3x4x3 (quick) and 4x4x4 (thorough), ghost 1..3, <= 3-4 restarts. Output strides may differ between restarts. A one-file-per-process layout with a single chunk is not generated (Carpet does not write it). Extra columns returned for the rest of a file group are accepted. Trusted: the generator (validated by the spec-level partition invariant and by the reader itself on all layouts), h5py.",
  technique="TLA+ model of the simulation directory (decompositions, restarts) enumerated by TLC; every state materialised as HDF5 files and read with the real reader, compared bit-for-bit",
  design_ref="DESIGN.md 4.3, 5/C11")
 CHECKS["C12"] = dict(
